@@ -151,12 +151,12 @@ func (k SettlementKeeper) GetAllUniqueNftToVerify(ctx sdk.Context, until uint64)
 		var utxr types.UTXR
 		k.cdc.MustUnmarshal(iterator.Value(), &utxr)
 		if len(utxr.Recipients) == 0 && until >= utxr.CreatedAt {
-			nfts[*utxr.Nft] = struct{}{}
+			// store order, not Go map order: the list is written to consensus state (round info)
+			if _, seen := nfts[*utxr.Nft]; !seen {
+				nfts[*utxr.Nft] = struct{}{}
+				list = append(list, *utxr.Nft)
+			}
 		}
-	}
-
-	for nft := range nfts {
-		list = append(list, nft)
 	}
 
 	return list
